@@ -80,6 +80,8 @@ pub struct Exec<const N: usize> {
     /// observations recorded for replica comparison (C19), when enabled
     pub record: Option<Vec<String>>,
     pub(crate) recent: [u64; 2],
+    /// running hash of which instance each step was issued to, while several graphs are live
+    pub(crate) interleaving: H64,
 }
 
 pub fn fail<T>(clause: &'static str, owners: Owners, message: String) -> Result<T, Failure> {
@@ -110,6 +112,7 @@ impl<const N: usize> Exec<N> {
             trace: H64::default(),
             record: None,
             recent: [0; 2],
+            interleaving: H64::default(),
         }
     }
 
@@ -126,6 +129,7 @@ impl<const N: usize> Exec<N> {
             trace: H64::default(),
             record: None,
             recent: [0; 2],
+            interleaving: H64::default(),
         }
     }
 
@@ -220,6 +224,8 @@ impl<const N: usize> Exec<N> {
     }
 
     pub fn finish(&mut self) {
+        let il = self.interleaving.finish();
+        self.stats.interleavings.insert(il);
         // drop every graph (their Drop is part of what the memory observer watches)
         for g in &mut self.gs {
             *g = None;
